@@ -1377,6 +1377,8 @@ class World:
         return {app for app, recs in stored.items() if len(recs) > 1}
 
     def check_no_duplicates(self, when):
+        if self.prop in CELL_PROPS:
+            return True               # (C10's clause; not theirs)
         stored = self.stored_placement()
         for app in sorted(stored):
             if len(stored[app]) > 1 and app not in self.dups_before:
@@ -1754,7 +1756,22 @@ class Generator:
         spec = server_spec(rng, cfg, name)
         spec['op'] = 'srv_set'
         old = world._zk_obj(z.path.server(name)) if name in names else None
-        if old and old.get('parent') and rng.random() < 0.3:
+        if old and old.get('parent') and rng.random() < 0.15:
+            # only the traits the server reports change (one dropped or one
+            # added), e.g. after a node restart
+            traits = list(old.get('traits') or [])
+            pool = [t for t in cfg['traits'] + cfg.get('node_traits', [])
+                    if t not in traits]
+            if traits and (not pool or rng.random() < 0.6):
+                traits.remove(rng.choice(traits))
+            elif pool:
+                traits.append(rng.choice(pool))
+            spec = {'op': 'srv_set', 'name': name, 'parent': old['parent'],
+                    'partition': old.get('partition') or '_default',
+                    'memory': old.get('memory'), 'cpu': old.get('cpu'),
+                    'disk': old.get('disk'), 'traits': traits,
+                    'up_since': old.get('up_since')}
+        elif old and old.get('parent') and rng.random() < 0.3:
             # only the server's place in the topology changes
             racks = [r for _p, rs in cfg['topology'] for r in rs
                      if r != old['parent']]
@@ -1929,6 +1946,13 @@ class Generator:
         return {'op': 'drain'}
 
     def g_master_cycle(self, world):
+        if self.config.get('p_cycle_crash') and \
+                self.rng.random() < self.config['p_cycle_crash']:
+            # the master stops in the middle of publishing this cycle (the
+            # next op is the newly elected master's start)
+            return {'op': 'master_cycle',
+                    'crash_at': self.rng.randint(1, 6),
+                    'applied': self.rng.random() < 0.5}
         return {'op': 'master_cycle'}
 
     def g_integrity(self, world):
@@ -2021,10 +2045,14 @@ class Generator:
             proid = self.rng.choice(self.config['proids'])
             self.follow.extend([{'op': 'drain'}, {'op': 'master_cycle'},
                                 {'gen': 'detach_then_touch_server'}])
+            manifest = {'memory': '256M', 'cpu': '10%', 'disk': '256M',
+                        'affinity': '%s.web' % proid}
+            # (instances of one affinity share their limits)
+            limits = self.config['aff_limits'].get(manifest['affinity'])
+            if limits:
+                manifest['affinity_limits'] = limits
             return {'op': 'app_create', 'app_id': '%s.web' % proid,
-                    'manifest': {'memory': '256M', 'cpu': '10%',
-                                 'disk': '256M',
-                                 'affinity': '%s.web' % proid},
+                    'manifest': manifest,
                     'count': self.rng.randint(2, 4)}
         # prefer a server whose instances have at least two other places to
         # go (up servers of its partition in pods that stay attached)
@@ -2244,6 +2272,74 @@ class Generator:
             {'op': 'master_cycle'}])
         return {'op': 'app_delete', 'name': low_name}
 
+    def g_identity_handover_crash(self, world, staged=False):
+        """An identity changes hands inside one cycle - its holder is
+        blacked out (stays scheduled, loses its placement) and a waiting
+        member of the same, fully used group takes the identity over - and
+        the master stops somewhere inside that cycle's publication; after
+        the fail-over one more member arrives."""
+        master = world.master
+        if master is None:
+            return None
+        by_group = {}
+        for name in sorted(master.cell.apps):
+            app = master.cell.apps[name]
+            if app.identity_group and app.identity is not None and app.server:
+                by_group.setdefault(app.identity_group, []).append(name)
+        if not by_group:
+            if staged or not self.config['group_names']:
+                return None
+            # set the stage: a group of two with two members placed
+            group = self.rng.choice(self.config['group_names'])
+            proid = self.rng.choice(self.config['proids'])
+            manifest = {'memory': '256M', 'cpu': '10%', 'disk': '256M',
+                        'affinity': '%s.web' % proid,
+                        'identity_group': group}
+            limits = self.config['aff_limits'].get(manifest['affinity'])
+            if limits:
+                manifest['affinity_limits'] = limits
+            self.follow.extend([
+                {'op': 'app_create', 'app_id': '%s.web' % proid,
+                 'manifest': manifest, 'count': self.rng.randint(1, 2)},
+                {'op': 'drain'}, {'op': 'master_cycle'},
+                {'gen': 'identity_handover_crash'}])
+            return {'op': 'group', 'name': group, 'count': 2}
+        group = self.rng.choice(sorted(by_group))
+        holders = by_group[group]
+        victim = self.rng.choice(holders)
+        vapp = victim.split('#')[0]
+        proid = vapp.split('.')[0]
+        others = [a for a in ('web', 'db', 'job')
+                  if '%s.%s' % (proid, a) != vapp]
+        self.rng.shuffle(others)
+
+        def member(app):
+            manifest = {'memory': '256M', 'cpu': '10%', 'disk': '256M',
+                        'affinity': '%s.%s' % (proid, app),
+                        'identity_group': group}
+            limits = self.config['aff_limits'].get(manifest['affinity'])
+            if limits:
+                manifest['affinity_limits'] = limits
+            return {'op': 'app_create', 'app_id': '%s.%s' % (proid, app),
+                    'manifest': manifest, 'count': 1}
+        self.follow.extend([
+            member(others[0]), {'op': 'drain'}, {'op': 'master_cycle'},
+            # (a fail-over first: the order in which the next master holds
+            # the instances is the order ZooKeeper lists them in)
+            {'op': 'restart'}, {'op': 'drain'}, {'op': 'master_cycle'},
+            {'op': 'apps_blacklist', 'patterns': [vapp]}, {'op': 'drain'},
+            dict({'op': 'master_cycle'}, **self.rng.choice([
+                {'crash_at': 1, 'applied': True},
+                {'crash_at': 2, 'applied': False},
+                {'crash_at': 2, 'applied': True},
+                {'crash_at': 3, 'applied': False},
+                {'crash_at': self.rng.randint(1, 5),
+                 'applied': self.rng.random() < 0.5}])),
+            {'op': 'restart'}, member(others[1]), {'op': 'drain'},
+            {'op': 'master_cycle'},
+            {'op': 'apps_blacklist', 'patterns': []}])
+        return {'op': 'group', 'name': group, 'count': len(holders)}
+
 
 OP_WEIGHTS = [
     ('app_create', 30), ('app_delete', 6), ('app_prio', 4), ('srv_set', 6),
@@ -2259,6 +2355,7 @@ OP_WEIGHTS = [
     ('m_probe', 0), ('bucket_deleted_failover', 2),
     ('undefined_server_event', 4), ('reparent_to_undefined_rack', 2),
     ('detach_then_touch_server', 5), ('reparent_loaded', 5),
+    ('identity_handover_crash', 3),
 ]
 
 
@@ -2372,6 +2469,9 @@ def make_config(prop, tier, rng):
     cfg['child_order'] = rng.getrandbits(32) if rng.random() < 0.5 else None
     if prop == 'C02':
         cfg['m_probe_weight'] = 14
+    if prop != 'C10':
+        # (C10 enumerates the crash points itself)
+        cfg['p_cycle_crash'] = rng.choice([0.0, 0.0, 0.05, 0.12])
     return cfg
 
 
